@@ -883,7 +883,7 @@ def extra(tier, seed):
         "nontrivial": nontrivial,
         "violations": violations,
         "samples": samples,
-        "coverage": {"exhaustive": {"fixture_corpus_x_storage_paths": len(done), "blocked": [d for d in done if d.endswith(":blocked")]}},
+        "coverage": {"exhaustive": False, "bounded_slice_enumerated_completely": {"fixture_corpus_x_storage_paths": len(done), "blocked": [d for d in done if d.endswith(":blocked")]}},
     }
 
 
